@@ -186,6 +186,12 @@ where
         self.project().transport.get_pin_mut()
     }
 
+    /// Number of pending deadline timers (verification accessor).
+    #[cfg(tarpc_verif)]
+    pub fn verif_timers_len(&self) -> usize {
+        self.in_flight_requests.verif_timers_len()
+    }
+
     fn in_flight_requests_mut<'a>(self: &'a mut Pin<&mut Self>) -> &'a mut InFlightRequests {
         self.as_mut().project().in_flight_requests
     }
